@@ -530,14 +530,14 @@ func checkState(dir string) (v Verdict) {
 func psidOf(db *memorydb.Database) uint64 { return rawdb.ReadPersistentStateID(db) }
 
 func run(r *vrt.Run) {
-	r.Rule("a case = (generated pathdb history, crash position, crash-state variant); histories: 8-40 operations of Update (cap-triggered flushes with maxDiffLayers 2-8 and 0.5-16 KiB buffers, sync/async), Commit, Recover, Journal+Close+reopen, Close-without-journal+reopen, state history limits 0/6/12, trienode history on/off, journal in KV or in a file; positions: mutating file syscalls and key-value operations between the first and last workload mark (quick: sampled, thorough: all); variants: kill, and power-loss file cuts combined with key-value log prefixes not shorter than the last SyncKeyValue. non-trivial signature = (crash model, in-flight operation kind, event kind at the position, recovery outcome: layers restored?, history truncated?, rollback depth class)")
+	r.Rule("a case = (generated pathdb history, crash position, crash-state variant); histories: 8-40 operations of Update (cap-triggered flushes with maxDiffLayers 2-8 and 0.5-16 KiB buffers, sync/async), Commit, Recover, Journal+Close+reopen, Close-without-journal+reopen, state history limits 0/6/12, trienode history on/off, journal in KV or in a file; positions: mutating file syscalls and key-value operations between the first and last workload mark (quick: sampled, thorough: a larger sample, all if few); variants: kill, and power-loss file cuts combined with key-value log prefixes not shorter than the last SyncKeyValue. non-trivial signature = (crash model, in-flight operation kind, event kind at the position, recovery outcome: layers restored?, history truncated?, rollback depth class)")
 	if _, err := exec.LookPath("strace"); err != nil {
 		r.Inconclusive("strace not available: %v", err)
 		return
 	}
-	nh := r.N(8, 300)
-	posPer := r.N(36, 1<<30)
-	nRandom := r.N(1, 6)
+	nh := r.N(8, 36)
+	posPer := r.N(36, 200)
+	nRandom := r.N(1, 2)
 	var mu sync.Mutex
 	total := 0
 	vrt.Par(nh, 0, func(hi int) {
